@@ -90,6 +90,14 @@ CHECKS.update({
                 technique="TLA+ recogniser of the grammar evaluated by TLC over bounded-exhaustive token sequences; replay through zitiql/ast parse + evaluation"),
 })
 
+CHECKS.update({
+    "C14": dict(cat="model_checking", ref="DESIGN.md 5/C14", note="Trusted base: TLC; the cursor constructions of the harness (how each library cursor is opened over the given set). Bounded: 6-element universe, operation sequences up to 2-3 (seek) / 4-8 (next) steps.",
+                text="The cursor is an explicit state machine in TLA+; TLC checks the enumeration and seek laws of the property against it for every set, direction and "
+                     "bounded operation sequence, and every one of these runs is replayed on each cursor kind the library hands out, comparing validity and current "
+                     "element after every operation.",
+                technique="TLA+ state machine + laws checked by TLC; every model run replayed on all cursor constructions of the library"),
+})
+
 NOT_YET = {
     "C01": "check under construction in this session (Query.tla); not claimed until it runs clean on the unchanged tree",
     "C02": "check under construction (Query.tla / ScanAlgo.tla)",
